@@ -121,6 +121,9 @@ fn failing_expr(rng: &mut Rng) -> String {
         "(int.max_value #Int+ 1)",
         "(int.min_value #Int- 1)",
         "(int.max_value #Int* 2)",
+        "(int.min_value #Int/ (0 #Int- 1))",
+        "((0 #Int- 7) #Int/ (0 #Int* 3))",
+        "(let d = 0 #Int- 1 in (int.min_value #Int+ 0) #Int/ d)",
         "(sim.fail \"host function failed\")",
         "(string.len (string.slice \"abc\" 2 1))",
         "(string.len (string.slice \"日本\" 1 2))",
